@@ -156,12 +156,14 @@ def run(check, an: Analysis):
     for path in paths:
         depth_ctx = 0
         for index, event in enumerate(path.events):
-            if event.kind == 'ctx-enter' and event.depth == 0 and \
-                    event['callee'].fn.name == '__subscription__' and \
-                    ast.unparse(event.node.items[0].context_expr).startswith(
-                        'self._congested.'):
+            if event.kind in ('ctx-enter', 'with-enter') and event.depth == 0 and \
+                    rules.value_text(path, index, event.node.items[0].context_expr) == \
+                    'self._congested.__subscription__()':
+                # (a generator context manager or a context manager object)
                 depth_ctx += 1
-            elif event.kind == 'ctx-exit' and event.depth == 0:
+            elif event.kind in ('ctx-exit', 'with-exit') and event.depth == 0 and \
+                    rules.value_text(path, index, event.node.items[0].context_expr) == \
+                    'self._congested.__subscription__()':
                 depth_ctx -= 1
             elif event.kind == 'susp' and event.depth == 0 and is_suspension(event):
                 n_wait += 1
